@@ -1295,9 +1295,46 @@ func constTableLookup(st *ConcState, tbl, key ssa.Value) (v ssa.Value, found, kn
 		return e, true, true
 	}
 	if t.zero {
+		// an array element the literal does not mention holds the zero value
+		if at, ok := types.Unalias(deref(g.Type())).Underlying().(*types.Array); ok && kv >= 0 && kv < at.Len() {
+			if z := intConst(0, at.Elem()); z != nil {
+				return z, true, true
+			}
+		}
 		return nil, false, false
 	}
 	return nil, false, true
+}
+
+// ConstTableInt: element k of the constant package-level table g as an integer (booleans 0/1), if it is evident.
+func ConstTableInt(g *ssa.Global, k int64) (int64, bool) {
+	if constTables == nil {
+		buildConstTables()
+	}
+	t := constTables[g]
+	if t == nil {
+		return 0, false
+	}
+	if e, has := t.entries[k]; has {
+		if c, ok := e.(*ssa.Const); ok {
+			if n, ok := ConstInt(c); ok {
+				return n, true
+			}
+			if c.Value != nil && c.Value.Kind() == constant.Bool {
+				if constant.BoolVal(c.Value) {
+					return 1, true
+				}
+				return 0, true
+			}
+		}
+		return 0, false
+	}
+	if t.zero {
+		if at, ok := types.Unalias(deref(g.Type())).Underlying().(*types.Array); ok && k >= 0 && k < at.Len() {
+			return 0, true
+		}
+	}
+	return 0, false
 }
 
 
